@@ -12,11 +12,49 @@ import (
 // visited; returns the loop's blocks.
 func fanoutLoop(p *Prog, r *Report, R, key string, fn *ssa.Function, tableDesc string) map[*ssa.BasicBlock]bool {
 	var rng *ssa.Range
-	EachInstr(fn, func(in ssa.Instruction) {
-		if x, ok := in.(*ssa.Range); ok && Desc(x.X) == tableDesc {
-			rng = x
+	// in fn itself, or in a private helper it calls (described in fn's terms)
+	var search func(f *ssa.Function, d int, seen map[*ssa.Function]bool)
+	search = func(f *ssa.Function, d int, seen map[*ssa.Function]bool) {
+		if seen[f] || rng != nil {
+			return
 		}
-	})
+		seen[f] = true
+		EachInstr(f, func(in ssa.Instruction) {
+			if x, ok := in.(*ssa.Range); ok && Desc(x.X) == tableDesc {
+				rng = x
+			}
+		})
+		if rng != nil || d >= 2 {
+			return
+		}
+		EachInstr(f, func(in ssa.Instruction) {
+			c := CallOf(in)
+			if c == nil || rng != nil {
+				return
+			}
+			if _, isGo := in.(*ssa.Go); isGo {
+				return
+			}
+			sc := c.StaticCallee()
+			if sc == nil || sc.Blocks == nil || sc.Pkg != f.Pkg {
+				return
+			}
+			saved := descSubst
+			ns := map[*ssa.Parameter]string{}
+			for k, v := range saved {
+				ns[k] = v
+			}
+			for i, par := range sc.Params {
+				if i < len(c.Args) {
+					ns[par] = Desc(c.Args[i])
+				}
+			}
+			descSubst = ns
+			search(sc, d+1, seen)
+			descSubst = saved
+		})
+	}
+	search(fn, 0, map[*ssa.Function]bool{})
 	if rng == nil {
 		r.Bad(R, key+"/ranges-over-table", p.Pos(fn.Pos()), "ANCHOR-MISSING: no `range "+tableDesc+"` loop")
 		return nil
@@ -80,8 +118,8 @@ func fanoutBalanced(p *Prog, r *Report, R, key string, f *F, body map[*ssa.Basic
 		return
 	}
 	var clones, sends, frees, outFrees Sel
-	for _, e := range f.evs {
-		in := body[e.In.Block()]
+	for _, e := range f.All() {
+		in := inBody(body, e)
 		switch {
 		case e.Kind == "call" && e.What == "mangos.(*Message).Clone" && e.Args[0] == msg && in:
 			clones = append(clones, e)
@@ -99,7 +137,7 @@ func fanoutBalanced(p *Prog, r *Report, R, key string, f *F, body map[*ssa.Basic
 	r.Check(len(clones) == 1 && okS && clones[0].In.Block() == sends[0].In.Block(), R, key+"/clone-then-try-send", sends.Pos(p), "one Clone and one non-blocking send per entry", "the fan-out does not (Clone; non-blocking send) once per entry: "+argsOf(sends))
 	r.Check(len(frees) == 1 && hasAtom(frees[0].Guard, "select#0 != 0"), R, key+"/full-queue-drops-copy", frees.Pos(p), "when the entry's queue is full the copy is released (the sender never blocks)", "a full queue does not release the copy")
 	if len(sends) == 1 {
-		fanoutNoBypass(p, r, R, key, sends[0].In, nil, "")
+		fanoutNoBypass(p, r, R, key, sends[0], nil, "")
 	}
 	r.Check(len(outFrees) >= 1, R, key+"/own-reference-released", outFrees.Pos(p), "the sender's own reference is released after the loop", "the sender's own reference is not released after the fan-out")
 }
@@ -135,7 +173,14 @@ func loopBody(b *ssa.BasicBlock) (*ssa.BasicBlock, map[*ssa.BasicBlock]bool) {
 // skip conditions (e.g. "this entry is the source pipe").  A path from the loop head
 // back to the loop head that avoids `at` under any other condition means some entries are
 // silently passed over: the table is visited, but the message is not offered.
-func fanoutNoBypass(p *Prog, r *Report, R, key string, at ssa.Instruction, allowed func(atom string) bool, what string) {
+func fanoutNoBypass(p *Prog, r *Report, R, key string, ev *Ev, allowed func(atom string) bool, what string) {
+	at := loopInstr(ev)
+	if at == ev.In && ev.Subst != nil {
+		// the loop is inside a private helper: read its conditions in the anchor's terms
+		saved := descSubst
+		descSubst = ev.Subst
+		defer func() { descSubst = saved }()
+	}
 	head, body := loopBody(at.Block())
 	if head == nil {
 		r.Bad(R, key+"/offered-to-every-entry", p.InstrPos(at), "ANCHOR-MISSING: the delivery attempt is not inside a loop")
@@ -189,4 +234,19 @@ func nonEmpty(xs []string) []string {
 		}
 	}
 	return out
+}
+
+// inBody: the event lies in the loop — itself, or (for an event found in a private helper)
+// the call through which it is reached.
+func inBody(body map[*ssa.BasicBlock]bool, e *Ev) bool {
+	return body[e.In.Block()] || body[e.At().Block()]
+}
+
+// loopInstr: the instruction to use for loop questions about e: the event's own when it is
+// inside a loop of its function, else the call site in the anchor function.
+func loopInstr(e *Ev) ssa.Instruction {
+	if h, _ := loopBody(e.In.Block()); h != nil {
+		return e.In
+	}
+	return e.At()
 }
